@@ -16,7 +16,9 @@ pub enum Intent {
     Withdraw { pair: usize, amount: u128, holder: String },
     /// a swap attempt at a pair; `delivered` = what the trader actually hands over in this tx
     Swap { pair: usize, hook: bool, offer: Asset, delivered: Vec<(AssetInfo, u128)>, receiver: String },
-    Route { ops: Vec<SwapOperation>, delivered: (AssetInfo, u128), minimum: Option<u128>, receiver: String },
+    /// `delivered` = the input of the route; `extras` = further coins attached to the router call (they sit in
+    /// the router while the route runs)
+    Route { ops: Vec<SwapOperation>, delivered: (AssetInfo, u128), extras: Vec<(AssetInfo, u128)>, minimum: Option<u128>, receiver: String },
     /// plain transfer of an asset to `to`
     Transfer { asset: AssetInfo, to: String, amount: u128 },
     Allowance,
@@ -60,6 +62,7 @@ pub fn classify(w: &World, st: &Step) -> Intent {
                         Ok(RouterHook::ExecuteSwapOperations { operations, minimum_receive, to }) => Intent::Route {
                             ops: operations,
                             delivered: (AssetInfo::Token { contract_addr: token.clone() }, amount.u128()),
+                            extras: vec![],
                             minimum: minimum_receive.map(|m| m.u128()),
                             receiver: to.unwrap_or_else(|| st.sender.clone()),
                         },
@@ -82,8 +85,12 @@ pub fn classify(w: &World, st: &Step) -> Intent {
         }
         Call::Router { msg } => match msg {
             RouterExec::ExecuteSwapOperations { operations, minimum_receive, to } => {
-                let first = funds.first().cloned().unwrap_or((AssetInfo::NativeToken { denom: String::new() }, 0));
-                Intent::Route { ops: operations.clone(), delivered: first, minimum: minimum_receive.map(|m| m.u128()), receiver: to.clone().unwrap_or_else(|| st.sender.clone()) }
+                // the input is the attached coin of the first hop's offer asset (else the first coin)
+                let want = operations.first().map(|SwapOperation::HaloSwap { offer_asset_info, .. }| offer_asset_info.clone());
+                let at = funds.iter().position(|(a, _)| Some(a) == want.as_ref()).unwrap_or(0);
+                let first = funds.get(at).cloned().unwrap_or((AssetInfo::NativeToken { denom: String::new() }, 0));
+                let extras: Vec<(AssetInfo, u128)> = funds.iter().enumerate().filter(|(i, _)| *i != at).map(|(_, c)| c.clone()).collect();
+                Intent::Route { ops: operations.clone(), delivered: first, extras, minimum: minimum_receive.map(|m| m.u128()), receiver: to.clone().unwrap_or_else(|| st.sender.clone()) }
             }
             _ => Intent::Other,
         },
@@ -109,10 +116,12 @@ pub fn step_summary(w: &World, st: &Step, out: &Outcome) -> Value {
             delivered.iter().map(|(a, v)| format!("{}{}", v, a)).collect::<Vec<_>>().join(","),
             receiver
         ),
-        Intent::Route { ops, delivered, minimum, receiver } => format!(
-            "route {} delivers {}{} minimum {:?} to {}",
+        Intent::Route { ops, delivered, extras, minimum, receiver } => format!(
+            "route {} delivers {}{}{} minimum {:?} to {}",
             ops.iter().map(|o| match o { SwapOperation::HaloSwap { offer_asset_info, ask_asset_info } => format!("{}>{}", offer_asset_info, ask_asset_info) }).collect::<Vec<_>>().join(" "),
-            delivered.1, delivered.0, minimum, receiver
+            delivered.1, delivered.0,
+            if extras.is_empty() { String::new() } else { format!(" (+ attached {})", extras.iter().map(|(a, v)| format!("{}{}", v, a)).collect::<Vec<_>>().join(",")) },
+            minimum, receiver
         ),
         Intent::Transfer { asset, to, amount } => format!("transfer {}{} to {}", amount, asset, to),
         Intent::Allowance => "change allowance".to_string(),
